@@ -19,8 +19,8 @@ from . import lib
 VARIANTS = ["stale_den", "relative_index", "relative_subset", "no_prior_term", "refill_on_resume", "silent_rerun"]
 ACTIONS = ["SetUpFresh", "SubIter", "Crash", "Resume", "Again", "RerunWithoutSetUp"]
 BEYOND = {"denfile", "refuse-rdp", "refuse-alpha0", "refuse-wrongden", "randomise", "writeUpdate", "writeUpdate-exact", "logcosh", "enforcePos-resume",
-          "upper-bound-0", "huge-gamma", "one-subiteration", "scale"}
-RUN_KINDS = ["single", "fresh", "resume", "again", "history", "reuse", "denfile", "refuse", "nosetup"]
+          "upper-bound-0", "huge-gamma", "one-subiteration", "scale", "scale-eff", "scale-eff-large", "scale-eff-fresh-start"}
+RUN_KINDS = ["scaled", "single", "fresh", "resume", "again", "history", "reuse", "denfile", "refuse", "nosetup"]
 
 
 def _groups(recs):
@@ -100,7 +100,11 @@ def run(ctx):
         for rec in recs:
             e = rec["e"]
             if e == "ScaleOf":
-                seen["beyond"].add("scale")
+                seen["beyond"].add("scale" if rec.get("mode") == "data" else "scale-eff")
+                if rec.get("mode") == "eff" and abs(rec["by"]) >= 20:
+                    seen["beyond"].add("scale-eff-large")
+            if e == "Run" and rec["kind"] == "scaled" and rec["start"] == 1:
+                seen["beyond"].add("scale-eff-fresh-start")
             if e == "System":
                 hole = any(len(col) == 0 for col in rec["cols"])       # a voxel no bin sees (zero sensitivity)
             elif e == "Config":
